@@ -220,7 +220,7 @@ impl Default for RunCfg {
             hot_mask: 0,
             stall: None,
             buggify_p: 0.0,
-            step_cap: 2_000_000,
+            step_cap: 400_000,
             janitor_rounds: 0,
             lin: 0,
             quarantine: true,
